@@ -5,6 +5,6 @@ CONSTANTS Targets = {1, 2}
           Builders = {"v0", "v1", "v1b", "v1s"}
           MaxLinks = 16
           NNames = 3
-          Lean = FALSE
+          Lean = 0
           D = 1000
           E = 1000
